@@ -194,6 +194,8 @@ def real_case(case: dict) -> list:
                     o = "error"
                 except OSError as e:  # the cache could not even be written
                     o = f"raised:{type(e).__name__}"
+                except Exception as e:  # noqa: BLE001  a complete run must not raise at all: report it as its outcome
+                    o = f"raised:{type(e).__name__}"
                 calls = sorted(vid2key[int(x)] for x in log.read_text().split())
                 out.append({"out": o, "calls": calls, "fs": _obs_fs(cdir, keys, before, rk),
                             "uncached_before": sorted(k for k, _, _ in keys if k not in have)})
